@@ -185,7 +185,7 @@ class Interp:
         self.solver.set("timeout", SOLVER_TIMEOUT_MS)
         from .abstraction import Abstractor
         self.asolver = z3.Solver()          # the same assertions with non-linear arithmetic abstracted to UFs
-        self.asolver.set("timeout", 5000)
+        self.asolver.set("timeout", 10000)
         self.abs = Abstractor(self.asolver)
         self.heap = {}
         self.next_oid = 0
